@@ -572,8 +572,86 @@ def rule_r3(prog, res) -> None:
         raise AnalysisError("C05.R3: worker-count parameters vanished from the parallel entry points")
 
 
+def rule_r4(prog, res) -> None:
+    """no hidden per-process state: a memo differs between worker processes / ranks and between runs"""
+    from .common import memo_rule
+
+    memo_rule(prog, res, "C05.R4", lambda f: f.module.name.startswith(("yaw.correlation", "yaw.redshifts", "yaw.catalog", "yaw.utils")), "results depend on what this process computed before")
+
+
+def rule_r5(prog, res) -> None:
+    """objects travel to worker processes / ranks by pickle: the state protocol is complete.
+    __getstate__ hands out every slot under its own name, __setstate__ restores every key it is given
+    (decided on the symbolic store of the two methods)."""
+    from .. import symx
+
+    n = 0
+    for ci in prog.classes:
+        gs, ss = ci.methods.get("__getstate__"), ci.methods.get("__setstate__")
+        if gs is None and ss is None:
+            continue
+        slots = [s_ for s_ in prog.all_slots(ci) if not s_.startswith("__")]
+        n += 1
+        keys = None
+        if gs is not None:
+            res.touch(gs)
+            rets = [p for p in symx.explore(prog, gs, inline=symx.inline_private_helpers(prog)) if p.outcome == "return" and p.value is not None]
+            keysets = []
+            for p in rets:
+                v = p.value
+                if isinstance(v, ast.Call) and (dotted(v.func) or "") == "dict" and not v.args:
+                    keysets.append({k.arg: k.value for k in v.keywords if k.arg})
+                elif isinstance(v, ast.Dict) and all(isinstance(k, ast.Constant) for k in v.keys):
+                    keysets.append({k.value: x for k, x in zip(v.keys, v.values)})
+                elif isinstance(v, ast.DictComp):
+                    keysets.append(None)  # generic: built from the slots
+                else:
+                    raise AnalysisError(f"C05.R5: state returned by {gs.short} not recognised ({unparse(v)[:60]})")
+            for ks in keysets:
+                if ks is None:
+                    continue
+                keys = set(ks) if keys is None else keys & set(ks)
+                missing = [s_ for s_ in slots if s_ not in ks]
+                wrong = [k for k, x in ks.items() if k in slots and not any(isinstance(y, ast.Attribute) and y.attr == k for y in ast.walk(x))]
+                if missing:
+                    res.violation("C05.R5", gs, gs.node, f"{ci.name}.__getstate__ leaves out {missing}: an instance sent to a worker process is rebuilt without it (falls back to a default)", key_extra=f"getstate-missing-{ci.name}")
+                elif wrong:
+                    res.violation("C05.R5", gs, gs.node, f"{ci.name}.__getstate__ stores {wrong} from another attribute", key_extra=f"getstate-wrong-{ci.name}")
+                else:
+                    res.ok("C05.R5", res.site(gs), f"state holds every slot {slots}")
+        if ss is not None:
+            res.touch(ss)
+            st_param = ss.param_names()[1]
+            paths = symx.explore(prog, ss, inline=symx.inline_private_helpers(prog))
+            generic = False
+            read = set()
+            spread = False
+            for p in paths:
+                for ev in p.events:
+                    for x in ast.walk(ev.expr) if ev.expr is not None else []:
+                        if isinstance(x, ast.Subscript) and isinstance(x.value, ast.Name) and x.value.id == st_param and isinstance(x.slice, ast.Constant):
+                            read.add(x.slice.value)
+                        if isinstance(x, ast.Call) and any(k.arg is None and isinstance(k.value, ast.Name) and k.value.id == st_param for k in x.keywords):
+                            spread = True
+                    if ev.kind == "call" and ev.callee == "setattr" and len(ev.expr.args) == 3 and symx.mentions(ev.expr.args[1], lambda y: isinstance(y, ast.Call) and isinstance(y.func, ast.Attribute) and y.func.attr == "items"):
+                        generic = True
+                    if ev.kind == "call" and ev.callee == "update" and symx.mentions(ev.expr, lambda y: isinstance(y, ast.Name) and y.id == st_param):
+                        generic = True
+            expected = keys if keys is not None else set(slots)
+            if generic or spread:
+                res.ok("C05.R5", res.site(ss), "every key of the state is restored")
+            elif expected and not expected <= read:
+                res.violation("C05.R5", ss, ss.node, f"{ci.name}.__setstate__ restores only {sorted(read)} of the state {sorted(expected)}: the rest silently takes the constructor default in the receiving process", key_extra=f"setstate-partial-{ci.name}")
+            else:
+                res.ok("C05.R5", res.site(ss), f"restores {sorted(read)}")
+    if n < 3:
+        raise AnalysisError(f"C05.R5: only {n} classes with a pickle state protocol found, minimum 3")
+
+
 RULES = [
     ("C05.R1", rule_r1, QUICK),
     ("C05.R2", rule_r2, QUICK),
     ("C05.R3", rule_r3, QUICK),
+    ("C05.R4", rule_r4, QUICK),
+    ("C05.R5", rule_r5, QUICK),
 ]
